@@ -264,7 +264,10 @@ Definition parse_scalar (k : scalar_kind) (j : json) : outcome pv :=
   | KFloat =>                                   (* _parse_float -> coerce_float *)
       match j with
       | JInt z => if float_int_ok z then Ok (PFloat (float_text (dec_of_Z z))) else rejC
-      | JFloat r => Ok (PFloat r)
+      | JFloat r => match dec_of_text r with    (* inf / nan have no decimal text: refused *)
+                    | Some _ => Ok (PFloat r)
+                    | None => rejC
+                    end
       | JStr s => match dec_of_text s with      (* pinned leniency *)
                   | Some d => Ok (PFloat (float_text d))
                   | None => rejC
